@@ -102,3 +102,40 @@ def gen(rng, tier):
         path = [rand_index(rng) for _ in range(255)]
         yield Case("derive", ["secp256k1", hx(seed), nats(path), 255], "deep")
         yield Case("derive", ["secp256k1", hx(seed), nats(path + [0]), 256], "deep")
+
+
+def relations(rng, tier, rpt):
+    """entry-point equivalence and history: FromSeedAndPath == FromSeed + DerivePath == ChildKey chain for every curve class, whatever
+    class was used before with the same seed; objects handed out are independent of each other."""
+    from harness.props.bip32_common import node_out
+    from bip_utils import Bip32KeyError
+    bad = []
+    n = 0
+
+    def rep(what, inp, got, want):
+        bad.append({"property": "C03", "entry_point": what, "request_lines": [], "relation": what, "input": inp,
+                    "impl_output": got, "model_output": want, "no_failing_input": False})
+    for i in range(6 if tier == "quick" else 150):
+        seed = rand_seed(rng)
+        order = list(CURVES)
+        rng.shuffle(order)
+        path = [rand_index(rng, True) for _ in range(rng.randrange(0, 3))]
+        ptxt = "m" + "".join("/%d'" % (e - 2**31) for e in path)
+        want = {}
+        for c in CURVES:
+            o = CLS[c].FromSeed(seed)
+            for e in path:
+                o = o.ChildKey(e)
+            want[c] = (node_out(o), type(o).__name__)
+        for rnd in range(2):
+            for c in order:
+                n += 1
+                got_o = CLS[c].FromSeedAndPath(seed, ptxt)
+                got = (node_out(got_o), type(got_o).__name__)
+                if got != want[c]:
+                    rep("FromSeedAndPath differs from FromSeed + ChildKey chain (after the same seed was used with another curve class)",
+                        "%s seed=%s path=%s order=%s" % (c, seed.hex(), ptxt, order), str(got), str(want[c]))
+                if rnd == 0:
+                    got_o.ConvertToPublic()         # what the caller does with ITS object must not reach later calls
+    rpt.extra["entry_point_equivalence_checks"] = n
+    return bad[:5]
